@@ -2,6 +2,7 @@
 //! props: C03 C10
 //! cross-tool: shims::VarInt::decode (spec `vparse`) is proved on the real VarInt::decode by Kani (harness varint_decode_contract)
 //! trusted: bytes::Buf for io::Cursor as sequence operations (position + remaining = length); ConnectionId::from_buf as its stated contract (real body: debug_assert + slice index, panics exactly when the precondition fails); the `&mut dyn Buf` call `cid_parser.parse(buf)` is routed through a shim (Verus has no dyn coercion); slice::contains
+#![feature(sized_hierarchy)]
 #![allow(unused_imports, dead_code, non_camel_case_types, non_snake_case, unused_variables, unused_mut, unused_assignments, non_upper_case_globals)]
 use vstd::prelude::*;
 use std::ops::Range;
@@ -31,6 +32,8 @@ pub mod io {
     #[verifier::external_body] #[verifier::reject_recursive_types(T)] pub struct Cursor<T> { inner: T, pos: u64 }
     impl<T> Cursor<T> {
         pub uninterp spec fn rest(&self) -> Seq<u8>;
+        /// the underlying container (nothing is known here about its length beyond `position`'s contract)
+        #[verifier::external_body] pub fn get_ref(&self) -> (r: &T) { unimplemented!() }
         /// position + what is left = length of the underlying buffer, which fits usize
         #[verifier::external_body] pub fn position(&self) -> (r: u64) ensures r + self.rest().len() <= usize::MAX { unimplemented!() }
     }
@@ -130,6 +133,8 @@ pub trait ConnectionIdParser { }
 pub fn parse_short_cid<P: ConnectionIdParser + ?Sized, B: Buf>(p: &P, buf: &mut B) -> (r: ::std::result::Result<ConnectionId, super::code::PacketDecodeError>)
     ensures final(buf).bview().len() <= old(buf).bview().len()
 { unimplemented!() }
+#[verifier::external_trait_specification]
+pub trait ExAsRef<T: core::marker::PointeeSized>: core::marker::PointeeSized { type ExternalTraitSpecificationFor: core::convert::AsRef<T> + core::marker::PointeeSized; fn as_ref(&self) -> &T; }
 pub assume_specification<T: PartialEq> [<[T]>::contains] (s: &[T], x: &T) -> (r: bool);
 }
 pub mod code {
